@@ -79,62 +79,82 @@ XFirstNot(d, v, lo, hi) ==
            l   == XFirstNot(d, v, lo, mid) IN
        IF l < mid THEN l ELSE XFirstNot(d, v, mid, hi)
 
-(* The repeat window is a sequence of [id, L].                              *)
+(* The rules are stated as a step relation on a cursor                       *)
+(*   [p, f, W, rg, ri, rl, rll, rtr]                                         *)
+(*  p   1-based index of the next byte          f   current frame            *)
+(*  W   the repeat window: the [id, L] of the extensions of frame f since    *)
+(*      the last effective separator / the end of the previous repeat        *)
+(*  rg  0, or (while the payloads of a repeat are being read) the frame      *)
+(*      whose repeated extensions come next; ri index into W; rl the L bit   *)
+(*      of the indicator; rll index in W of its last long extension (0:      *)
+(*      none); rtr payload bytes of the short extensions of W after it       *)
+(* A step yields [c, out, st]: the next cursor, the extensions recognised    *)
+(* (none or one) and st \in {"go", "stop", "fail"}.                          *)
 XLastLong(W) == IF \E i \in 1..Len(W) : XIsLong(W[i].id)
                 THEN CHOOSE i \in 1..Len(W) : XIsLong(W[i].id) /\ \A j \in (i + 1)..Len(W) : ~XIsLong(W[j].id)
                 ELSE 0
 RECURSIVE XSumL(_, _)
 XSumL(W, i) == IF i > Len(W) THEN 0 ELSE W[i].L + XSumL(W, i + 1)
 
-XCons(e, r) == [r EXCEPT !.exts = <<e>> \o r.exts]
-XStop == [ok |-> TRUE, exts |-> <<>>]
-XFail == [ok |-> FALSE, exts |-> <<>>]
+XCursor0 == [p |-> 1, f |-> 0, W |-> <<>>, rg |-> 0, ri |-> 0, rl |-> 0, rll |-> 0, rtr |-> 0]
+XGo(c)       == [c |-> c, out |-> <<>>, st |-> "go"]
+XEmit(c, e)  == [c |-> c, out |-> <<e>>, st |-> "go"]
+XHalt(c, st) == [c |-> c, out |-> <<>>, st |-> st]
 
-(* Payloads of the repeated extensions: frames g..n-1, window entries i..    *)
-(* Result [ok, exts, next]; on failure exts holds what was complete before.  *)
-RECURSIVE XRepeat(_, _, _, _, _, _, _)
-XRepeat(d, n, p, g, W, i, lind) ==
-  IF g >= n THEN [ok |-> TRUE, exts |-> <<>>, next |-> p]
-  ELSE IF i > Len(W) THEN XRepeat(d, n, p, g + 1, W, 1, lind)
-  ELSE LET w      == W[i]
-           forced == lind = 0 /\ g = n - 1 /\ i = XLastLong(W)
-           pl     == XPayload(d, p, w.id, IF forced THEN 0 ELSE w.L,
-                              IF forced THEN XSumL(W, i + 1) ELSE 0) IN
-       IF ~pl.ok THEN [ok |-> FALSE, exts |-> <<>>, next |-> p]
-       ELSE XCons([id |-> w.id, frame |-> g, at |-> pl.at, len |-> pl.len],
-                  XRepeat(d, n, pl.next, g, W, i + 1, lind))
-
-(* The elements from 1-based index p on, current frame f, repeat window W.   *)
-RECURSIVE XWalk(_, _, _, _, _)
-XWalk(d, n, p, f, W) ==
-  IF p > Len(d) THEN XStop
-  ELSE LET id == XId(d[p])  L == XL(d[p]) IN
+XStep(d, n, c) ==
+  IF c.rg > 0 THEN                              \* reading the payloads of repeated extensions
+       IF c.rg >= n                              \* every later frame done: the repeat is over
+       THEN IF c.rl = 1 THEN XGo([c EXCEPT !.rg = 0, !.W = <<>>])
+            ELSE IF c.f + 1 >= n THEN XHalt(c, "stop")          \* no next frame: the rest is padding
+            ELSE XGo([c EXCEPT !.rg = 0, !.W = <<>>, !.f = c.f + 1])
+       ELSE IF c.ri > Len(c.W) THEN XGo([c EXCEPT !.rg = c.rg + 1, !.ri = 1])
+       ELSE LET w      == c.W[c.ri]
+                forced == c.rl = 0 /\ c.rg = n - 1 /\ c.ri = c.rll
+                pl     == XPayload(d, c.p, w.id, IF forced THEN 0 ELSE w.L, IF forced THEN c.rtr ELSE 0) IN
+            IF ~pl.ok THEN XHalt(c, "fail")
+            ELSE XEmit([c EXCEPT !.p = pl.next, !.ri = c.ri + 1],
+                       [id |-> w.id, frame |-> c.rg, at |-> pl.at, len |-> pl.len])
+  ELSE IF c.p > Len(d) THEN XHalt(c, "stop")
+  ELSE LET id == XId(d[c.p])  L == XL(d[c.p]) IN
   IF id = 0 THEN
-       IF L = 0 THEN XStop
-       ELSE XWalk(d, n, XFirstNot(d, 1, p + 1, Len(d) + 1), f, W)
+       IF L = 0 THEN XHalt(c, "stop")
+       ELSE XGo([c EXCEPT !.p = XFirstNot(d, 1, c.p + 1, Len(d) + 1)])     \* a run of one-byte paddings
   ELSE IF id = 1 THEN
-       IF L = 1 /\ p + 1 > Len(d) THEN XFail
-       ELSE LET inc == IF L = 0 THEN 1 ELSE d[p + 1]
-                q   == p + 1 + L IN
-            IF inc = 0 THEN XWalk(d, n, q, f, W)
-            ELSE IF f + inc >= n THEN XFail
-            ELSE XWalk(d, n, q, f + inc, <<>>)
+       IF L = 1 /\ c.p + 1 > Len(d) THEN XHalt(c, "fail")
+       ELSE LET inc == IF L = 0 THEN 1 ELSE d[c.p + 1]
+                q   == c.p + 1 + L IN
+            IF inc = 0 THEN XGo([c EXCEPT !.p = q])
+            ELSE IF c.f + inc >= n THEN XHalt(c, "fail")
+            ELSE XGo([c EXCEPT !.p = q, !.f = c.f + inc, !.W = <<>>])
   ELSE IF id = 2 THEN
-       LET r == XRepeat(d, n, p + 1, f + 1, W, 1, L) IN
-       IF ~r.ok THEN [ok |-> FALSE, exts |-> r.exts]
-       ELSE LET rest == IF L = 1 THEN XWalk(d, n, r.next, f, <<>>)
-                        ELSE IF f + 1 >= n THEN XStop
-                        ELSE XWalk(d, n, r.next, f + 1, <<>>) IN
-            [ok |-> rest.ok, exts |-> r.exts \o rest.exts]
-  ELSE LET pl == XPayload(d, p + 1, id, L, 0) IN
-       IF ~pl.ok THEN XFail
-       ELSE XCons([id |-> id, frame |-> f, at |-> pl.at, len |-> pl.len],
-                  XWalk(d, n, pl.next, f, Append(W, [id |-> id, L |-> L])))
+       LET ll == XLastLong(c.W) IN
+       XGo([c EXCEPT !.p = c.p + 1, !.rg = c.f + 1, !.ri = 1, !.rl = L, !.rll = ll, !.rtr = XSumL(c.W, ll + 1)])
+  ELSE LET pl == XPayload(d, c.p + 1, id, L, 0) IN
+       IF ~pl.ok THEN XHalt(c, "fail")
+       ELSE XEmit([c EXCEPT !.p = pl.next, !.W = Append(c.W, [id |-> id, L |-> L])],
+                  [id |-> id, frame |-> c.f, at |-> pl.at, len |-> pl.len])
+
+(* Steps are chained in blocks of XBlock so that the evaluation depth stays  *)
+(* small for inputs with thousands of elements (a TLC concern only).         *)
+XBlock == 96
+RECURSIVE XRun(_, _, _, _)
+XRun(d, n, c, k) ==              \* at most k steps: [c, exts, st]
+  IF k = 0 THEN [c |-> c, exts |-> <<>>, st |-> "go"]
+  ELSE LET s == XStep(d, n, c) IN
+       IF s.st # "go" THEN [c |-> s.c, exts |-> s.out, st |-> s.st]
+       ELSE LET r == XRun(d, n, s.c, k - 1) IN [r EXCEPT !.exts = s.out \o r.exts]
+RECURSIVE XRunAll(_, _, _)
+XRunAll(d, n, c) ==
+  LET b == XRun(d, n, c, XBlock) IN
+  IF b.st # "go" THEN [ok |-> b.st = "stop", exts |-> b.exts]
+  ELSE LET r == XRunAll(d, n, b.c) IN [r EXCEPT !.exts = b.exts \o r.exts]
+
+XStop == [ok |-> TRUE, exts |-> <<>>]
 
 (* ParseRaw: [ok, exts]; when ~ok, exts are the extensions that are complete  *)
 (* before the point at which the data becomes invalid (what a streaming      *)
 (* parser has reported by then).  With no frames there is nothing to report. *)
-ParseRaw(d, n) == IF n <= 0 THEN XStop ELSE XWalk(d, n, 1, 0, <<>>)
+ParseRaw(d, n) == IF n <= 0 THEN XStop ELSE XRunAll(d, n, XCursor0)
 
 (* ParseAll: "invalid" or the sequence of [id, frame, at, len] in bitstream  *)
 (* order.                                                                   *)
